@@ -197,6 +197,9 @@ type Check struct {
 	Level    string // exploration | fault_enumeration
 	Build    string // maporder | lockstep
 	Variant  string // distinguishes several checks of one property on one build
+	// Statistical: the interleaving is left to the Go runtime (seeded preemption under the race
+	// detector): not digest-deterministic; replay re-executes the case until the violation shows
+	Statistical bool
 	Rule     string // non-triviality / distinctness rule for the evidence file
 	Real     []string
 	Stub     []string
